@@ -130,3 +130,59 @@ func C07_Cancel() {
 	vf.Assert(vf.Goroutines() == 0, "no goroutine left after the second run: "+p.name)
 	vf.Reach("cancel")
 }
+
+// C07_HostCall: the context is cancelled while the script is inside a host
+// function that keeps running for a while (a user-supplied Go callable; the
+// property excludes nothing here except how long the native call takes).
+// RunContext may not return before the VM goroutine has ended: "no goroutine
+// is left behind", and the compiled object - whose lock RunContext releases -
+// is not handed back while a stale run still uses its globals.
+func C07_HostCall() {
+	spins := 1 + vf.Choice("spins", 3)
+	before := vf.Choice("cancel-before-call", 2) == 1
+	ctx := &hctx{done: make(chan struct{})}
+	inHost, cancelled := false, false
+	cancel := func() {
+		if !cancelled {
+			cancelled = true
+			ctx.err = errCancelled
+			close(ctx.done)
+		}
+	}
+	host := &tengo.UserFunction{Name: "wait", Value: func(args ...tengo.Object) (tengo.Object, error) {
+		inHost = true
+		if !before {
+			cancel()
+		}
+		if vf.Symbolic() {
+			for k := 0; k < spins; k++ {
+				vf.Handoff() // the waiting goroutine gets to run while the call is in progress
+			}
+		} else {
+			time.Sleep(1500 * time.Millisecond)
+		}
+		inHost = false
+		return tengo.UndefinedValue, nil
+	}}
+	s := tengo.NewScript([]byte(`out := 1; wait(); out = 2; for i := 0; i < 3; i++ { out += i }`))
+	_ = s.Add("wait", host)
+	c, err := s.Compile()
+	vf.Assert(err == nil, "host-call program compiles")
+	if before {
+		cancel()
+	}
+	var rerr error
+	res := vf.Guard(func() { rerr = c.RunContext(ctx) }, 3000000)
+	vf.Assert(res == 0, "RunContext returns (no hang, no panic) when cancelled during a host call: "+vf.LastGuard())
+	vf.Assert(!inHost, "RunContext does not return while the script's goroutine is still inside the host call")
+	vf.Assert(vf.Goroutines() == 0, "no goroutine is left behind when RunContext returns (cancelled during a host call)")
+	vf.Assert(rerr == errCancelled || rerr == nil, "the result is the context's error or the run's own result")
+	// the compiled object can be run again with a live context
+	host.Value = func(args ...tengo.Object) (tengo.Object, error) { return tengo.UndefinedValue, nil }
+	var rerr2 error
+	res = vf.Guard(func() { rerr2 = c.RunContext(liveCtx()) }, 3000000)
+	vf.Assert(res == 0 && rerr2 == nil, "the compiled object can be run again after a run cancelled during a host call: "+vf.LastGuard())
+	vf.Assert(c.Get("out").Int64() == 5, "the second run computes correct results")
+	vf.Assert(vf.Goroutines() == 0, "no goroutine left after the second run")
+	vf.Reach("hostcall")
+}
